@@ -31,4 +31,21 @@ def handleChk (asSet : Bool) (args : List String) : String :=
     | _, _ => "bad-request"
   | _ => "bad-request"
 
+/-! `chkthis <direct> <objects a+b|-> <structs c:a+b;c:...|-> <refs a+b|->` → sorted comma-separated reported names -/
+def parseNames (s : String) : Option (List String) :=
+  if s == "-" then some [] else (s.splitOn "+").mapM hexStr
+
+def parseStructs (s : String) : Option (List (Bool × List String)) :=
+  if s == "-" then some [] else (s.splitOn ";").mapM fun d => match d.splitOn ":" with
+    | [c, comps] => do let cs ← parseNames comps; pure (c == "1", cs)
+    | _ => none
+
+def handleChkThis (args : List String) : String :=
+  match args with
+  | [d, o, st, r] => match parseNames o, parseStructs st, parseNames r with
+    | some objects, some structs, some refs =>
+      ",".intercalate ((thisReport ⟨d == "1", objects, structs, refs⟩).foldr insertSorted [])
+    | _, _, _ => "bad-request"
+  | _ => "bad-request"
+
 end A2l.Gr
